@@ -850,7 +850,8 @@ def comp_harness(kind):
     def h(run):
         def build():
             sk = Skeleton()
-            e1, c1, e2, elt = sk.child('expr', 'iter1'), sk.child('expr', 'cond1'), sk.child('expr', 'iter2'), sk.child('expr', 'element')
+            e1, c1, e2, elt = sk.child('expr', 'iter1'), sk.child('expr', 'cond1', effects=True), sk.child('expr', 'iter2'), sk.child('expr', 'element')
+            c2 = sk.child('expr', 'cond2', effects=True)
             val = sk.child('expr', 'value') if kind == 'DictComp' else None
             kw, p1, p2 = Pos('comp'), Pos('x1'), Pos('x2')
             sk.facts += px_facts(kw) + [lt(kw.t, elt.start.t)]
@@ -858,16 +859,16 @@ def comp_harness(kind):
             if val:
                 sk.facts += [le(elt.end.t, val.start.t)]
                 lastp = val.end
-            sk.facts += [le(lastp.t, p1.t), lt(p1.t, e1.start.t), le(e1.end.t, c1.start.t), le(c1.end.t, p2.t), lt(p2.t, e2.start.t)]
+            sk.facts += [le(lastp.t, p1.t), lt(p1.t, e1.start.t), le(e1.end.t, c1.start.t), le(c1.end.t, p2.t), lt(p2.t, e2.start.t), le(e2.end.t, c2.start.t)]
             x1, x2 = name_node('x1', p1), name_node('x2', p2)
             gens = [ast.comprehension(target=x1, iter=e1.node(), ifs=[c1.node()], is_async=0),
-                    ast.comprehension(target=x2, iter=e2.node(), ifs=[], is_async=0)]
+                    ast.comprehension(target=x2, iter=e2.node(), ifs=[c2.node()], is_async=0)]
             cls = getattr(ast, kind)
             if kind == 'DictComp':
                 sk.node = kw.put(cls(key=elt.node(), value=val.node(), generators=gens))
             else:
                 sk.node = kw.put(cls(elt=elt.node(), generators=gens))
-            sk.__dict__.update(e1=e1, c1=c1, e2=e2, elt=elt, val=val, x1=x1, x2=x2)
+            sk.__dict__.update(e1=e1, c1=c1, e2=e2, elt=elt, val=val, x1=x1, x2=x2, c2=c2)
             return sk
 
         def check(sk, g, v, path):
@@ -878,12 +879,16 @@ def comp_harness(kind):
                 return
             t1 = bind(g.def_of(b1[0][1]), g.n == g.ident('x1'))
             t2 = bind(g.def_of(b2[0][1]), g.n == g.ident('x2'))
-            ents = [(sk.e1, ID), (sk.c1, t1), (sk.e2, t1), (sk.elt, t1.then(t2))]
+            # evaluation order (language reference 6.2.4): e1, x1 bound, c1 (may bind through a walrus), e2, x2 bound, then the element
+            tc, tc2 = sk.c1.tr, sk.c2.tr
+            full = t1.then(tc).then(t2).then(tc2)
+            ents = [(sk.e1, ID), (sk.c1, t1), (sk.e2, t1.then(tc)), (sk.c2, t1.then(tc).then(t2)), (sk.elt, full)]
             if sk.val:
-                ents.append((sk.val, t1.then(t2)))
+                ents.append((sk.val, full))
             check_entries(sk, g, path, ents, fs)
             # nothing leaks except through the comprehension variables themselves (reading them afterwards is outside C03's domain)
-            other = [g.n != g.ident('x1'), g.n != g.ident('x2')]
+            # and through a walrus in a condition (which binds in the enclosing scope by design)
+            other = [g.n != g.ident('x1'), g.n != g.ident('x2'), sk.c1.G == EMPTY, sk.c1.P, sk.c2.G == EMPTY, sk.c2.P]
             prove_eq('exit-for-other-identifiers', g.view_end(v.flow), g.V0, 'the comprehension binds nothing in the enclosing scope', path, fs + other)
         run_skeleton(build, check)
     h.__name__ = 'v_' + kind.lower()
